@@ -130,7 +130,7 @@ func c01Progs() map[string]*Prog {
 func c01Units(tier string) []*Unit {
 	var us []*Unit
 	// an included Taskfile with two run-once tasks whose names end in the same segment (shared with C06)
-	us = append(us, c06IncludeUnit(tier), c01RootRefUnit())
+	us = append(us, c06IncludeUnit(tier), c01RootRefUnit(), c01ForDepsUnit())
 	progs := c01Progs()
 	for _, name := range sortedProgNames(progs) {
 		pg := progs[name]
@@ -198,6 +198,40 @@ func c01RootRefUnit() *Unit {
 		}
 		if got := fmt.Sprint(order); got != "[gen-proto inc:build gen-proto inc:build2]" || x.Code != 0 {
 			out = append(out, vlab.V("C01", "dep_not_finished", "always:root_reference", fmt.Sprintf("commands finished in the order %v (status %d %s); expected the listed dep gen-proto before each dependent", order, x.Code, firstN(x.ErrStr, 80))))
+		}
+		return out
+	}}
+}
+
+// A deps list that mixes plain entries with a for: entry (which expands into one dependency per
+// item): every listed task, before and after the loop and once per item, has finished before
+// the dependent's command starts.
+func c01ForDepsUnit() *Unit {
+	pr := func(task string, vp string) string {
+		return "printf '%s\\n' 'P|" + task + "|0|" + vp + "|'"
+	}
+	files := map[string]string{
+		"Taskfile.yml": "version: '3'\ntasks:\n  root:\n    deps:\n      - setup\n      - for: [alpha, beta]\n        task: gen\n        vars: {WHO: '{{.ITEM}}'}\n      - tail\n      - for: [x]\n        task: 'last-{{.ITEM}}'\n    cmds:\n      - " + pr("root", "@") + "\n" +
+			"  setup:\n    cmds:\n      - " + pr("setup", "=") + "\n  gen:\n    cmds:\n      - " + pr("gen", "{{.WHO}}") + "\n  tail:\n    cmds:\n      - " + pr("tail", "=") + "\n  last-x:\n    cmds:\n      - " + pr("last-x", "=") + "\n",
+	}
+	sc := &vlab.Scenario{Name: "deps-list-mixing-plain-and-for-entries/cinf", Files: files, Calls: []vlab.CallSpec{{Task: "root"}}}
+	return &Unit{Name: sc.Name, Sc: sc, Bound: 1, Prune: true, Weight: 2, Check: func(x *vlab.Exec) []vlab.Violation {
+		out := generic("C01", x)
+		done := map[string]bool{}
+		for _, e := range vlab.ParseTrace(x.Trace) {
+			if e.K == 'F' && e.Task != "" {
+				done[e.Task+"/"+e.VP] = true
+			}
+			if e.K == 'S' && e.Task == "root" {
+				for _, want := range []string{"setup/=", "gen/alpha", "gen/beta", "tail/=", "last-x/="} {
+					if !done[want] {
+						out = append(out, vlab.V("C01", "dep_not_finished", "always:for_in_deps", fmt.Sprintf("the command of root started although its dependency %s had not finished (finished so far: %v; status %d %s)", want, vlab.SortedSet(done), x.Code, firstN(x.ErrStr, 80))))
+					}
+				}
+			}
+		}
+		if x.Code != 0 {
+			out = append(out, vlab.V("C01", "run_failed", "for_in_deps", fmt.Sprintf("status %d %s", x.Code, firstN(x.ErrStr, 120))))
 		}
 		return out
 	}}
